@@ -32,12 +32,34 @@ def run(run):
                        'recomputed independently (own negate + nibble loop)']
     rng = run.rng('c17')
 
+    calls = [0]
+
     def check(sid, secret, key, why):
         exp = javahash.server_hash(sid, secret, key)
+        # calling styles: positional (what the library itself does), by
+        # parameter name (the documented names), and with the byte arguments
+        # held in other buffer types hashlib accepts
+        calls[0] += 1
+        style = ('positional', 'keywords', 'positional', 'bytearray',
+                 'positional', 'memoryview', 'keywords-shuffled')[calls[0] % 7]
         try:
-            got = encryption.generate_verification_hash(sid, secret, key)
+            if style == 'keywords':
+                got = encryption.generate_verification_hash(
+                    server_id=sid, shared_secret=secret, public_key=key)
+            elif style == 'keywords-shuffled':
+                got = encryption.generate_verification_hash(
+                    public_key=key, server_id=sid, shared_secret=secret)
+            elif style == 'bytearray':
+                got = encryption.generate_verification_hash(
+                    sid, bytearray(secret), bytearray(key))
+            elif style == 'memoryview':
+                got = encryption.generate_verification_hash(
+                    sid, memoryview(secret), memoryview(key))
+            else:
+                got = encryption.generate_verification_hash(sid, secret, key)
         except Exception as e:
             got = repr(e)
+        run.seen('calling_styles', style)
         run.case((sid, secret, key))
         d = hashlib.sha1(sid.encode('utf-8') + secret + key).digest()
         run.seen('digest_shapes', shape(d))
@@ -45,7 +67,8 @@ def run(run):
             run.violation('hash/' + shape(d), 'server hash differs from Java '
                           'BigInteger.toString(16) of the SHA-1',
                           {'server_id': sid, 'secret': secret, 'key': key,
-                           'got': got, 'expected': exp, 'why': why})
+                           'got': got, 'expected': exp, 'why': why,
+                           'calling_style': style})
         return exp
 
     if run.shard == 0:
@@ -140,4 +163,5 @@ def run(run):
         run.sample({'shape': s, 'server_id': sid, 'secret': secret, 'key': key,
                     'hash': javahash.server_hash(sid, secret, key)})
     run.require('digest_shapes', 6)
+    run.require('calling_styles', 5)
     run.require('key_encodings_checked', 10)
